@@ -58,7 +58,8 @@ def qbytes_int8pack_mm(activations: torch.Tensor, weights: torch.Tensor, output_
         # which happens with memory-mapped weights (safetensors)
         weights = weights.clone()
     if activations.ndim == 2:
-        return torch._weight_int8pack_mm(activations, weights, output_scales)
+        # torch._weight_int8pack_mm requires activations that are contiguous on the last dimension
+        return torch._weight_int8pack_mm(activations.contiguous(), weights, output_scales)
     else:
         in_features = activations.shape[-1]
         out_features = weights.shape[0]
